@@ -1,9 +1,120 @@
-(* C11 — FASTA/FASTQ indexing and random access return exactly the indexed bases. *)
+(* C11 — FASTA/FASTQ indexing and random access return exactly the indexed bases.
+   Property theorems only.  Models: NV.Fasta.Layout (raw lines, naive parse, writer),
+   NV.Fasta.Indexer (io/indexer.rs), NV.Fasta.Query (fai/record.rs, fai/index.rs, io/reader.rs
+   query, io/reader/sequence.rs).  A file is any list of bytes; [record_of f r B] says that fai
+   record r was produced by the indexer at a definition line of f carrying r's name and that B is
+   the naive parse (contents of the following lines up to the next '>' line or the end of the
+   file) of that record. *)
 From Coq Require Import List NArith.
-From NV Require Import Fasta.Layout Fasta.Indexer Fasta.Query Fasta.LayoutProofs.
+From NV Require Import Fasta.Layout Fasta.LayoutProofs Fasta.Indexer Fasta.IndexerProofs
+                       Fasta.Query Fasta.QueryProofs.
 Import ListNotations.
 Open Scope N_scope.
 
+(* raw lines lose nothing *)
 Theorem c11_lines_concat : forall s, concat (lines s) = s.
 Proof. exact lines_concat. Qed.
 Print Assumptions c11_lines_concat.
+
+(* For EVERY byte string f: each record the indexer returns (also the ones returned before a
+   later record is rejected) has length = the number of naive bases, and for every base index i
+   the file byte at offset position + i/line_bases*line_width + i%line_bases is base i of the
+   naive parse.  No hypothesis on line terminators or on the bases. *)
+Theorem c11_fai_offset_correct : forall f recs e r,
+  index_file f = (recs, e) -> In r recs ->
+  exists B, record_of f r B /\ f_len r = len B /\
+    forall i dflt, i < len B ->
+      exists pos, fai_query r i = Some pos /\ nth (N.to_nat pos) f dflt = nth (N.to_nat i) B dflt.
+Proof. exact fai_offset_correct. Qed.
+Print Assumptions c11_fai_offset_correct.
+
+(* What the indexer accepts, exactly: a well-formed definition line, a first sequence line with
+   >= 1 base, then lines of the same width and base count, an optional last line with at most
+   that width / base count, then the end of the input or the next definition
+   ([accepted_layout]); ragged records are rejected. *)
+Theorem c11_indexer_rejects_ragged : forall d body off r off' rest,
+  index_record (d :: body) off = inr (Some (r, off', rest)) ->
+  parse_def_name (def_content d) = Some (f_name r) /\
+  accepted_layout body rest (f_lw r) (f_lb r).
+Proof.
+  intros d body off r off' rest H.
+  destruct (index_record_spec _ _ _ _ _ _ H) as [H1 [_ [_ [_ [_ [H2 _]]]]]]. now split.
+Qed.
+Print Assumptions c11_indexer_rejects_ragged.
+
+(* ... and conversely every such layout is accepted, with that geometry *)
+Theorem c11_indexer_accepts_regular : forall d body rest name lw lb off,
+  parse_def_name (def_content d) = Some name ->
+  accepted_layout body rest lw lb ->
+  exists r off', index_record (d :: body) off = inr (Some (r, off', rest)) /\
+                 f_name r = name /\ f_lw r = lw /\ f_lb r = lb.
+Proof. exact index_record_accepts. Qed.
+Print Assumptions c11_indexer_accepts_regular.
+
+(* Region queries.  For every byte string f, every record r of the index, every region whose
+   (defaulted) start st satisfies 1 <= st <= length and st <= end: the query returns exactly
+   firstn (end-st+1) (skipn (st-1) B), hence clipped at the end of the sequence and containing
+   nothing of a definition line or of another record.  Side conditions: the bases of this record
+   contain no CR (a bare CR is property C12's finding) and no '>' (a '>' inside a sequence line
+   stops the reader when the seek lands on it).  Holds for the pinned code (chk = false) and for
+   the repaired Record::query (chk = true). *)
+Theorem c11_query_exact : forall f recs err r chk s e,
+  index_file f = (recs, err) -> In r recs ->
+  exists B, record_of f r B /\
+    (~ In CR B -> ~ In GT B ->
+     let st := match s with Some p => p | None => 1 end in
+     let en := match e with Some p => p | None => usize_max end in
+     1 <= st -> st <= f_len r -> st <= en ->
+     query_record chk f r s e
+     = QOk (firstn (N.to_nat (en - st + 1)) (skipn (N.to_nat (st - 1)) B))).
+Proof. exact query_exact. Qed.
+Print Assumptions c11_query_exact.
+
+(* The statement cannot be extended to st > length for the pinned code: known finding
+   fasta-query-start-beyond-length.  On ">a\nACGT\n>b\nTTTT\n" the query a:6-7 returns "bT". *)
+Definition c11_query_clipped_full_statement : Prop :=
+  forall f recs err r s e, index_file f = (recs, err) -> In r recs ->
+    f_len r < s -> s <= e ->
+    query_record false f r (Some s) (Some e) = QOk [] \/
+    query_record false f r (Some s) (Some e) = QErrInvalidInput.
+
+Theorem c11_query_start_beyond_refuted :
+  exists f r s e,
+    In r (fst (index_file f)) /\ snd (index_file f) = None /\ f_len r < s /\ s <= e /\
+    query_record false f r (Some s) (Some e) = QOk [98; 84] /\
+    naive_bases (tl (lines f)) = [65;67;71;84].
+Proof. exact query_start_beyond_refuted. Qed.
+Print Assumptions c11_query_start_beyond_refuted.
+
+(* With the proposed one-line repair (fai_query_gen true) a start beyond the length is an error
+   for every file, so together with c11_query_exact no query returns foreign bytes. *)
+Theorem c11_query_repaired_start_beyond : forall f recs err r s e,
+  index_file f = (recs, err) -> In r recs ->
+  let st := match s with Some p => p | None => 1 end in
+  f_len r < st -> query_record true f r s e = QErrInvalidInput.
+Proof. exact query_checked_beyond. Qed.
+Print Assumptions c11_query_repaired_start_beyond.
+
+(* Not proved in this revision (tested by the harness only): c11_fasta_writer_reader (the model
+   writer NV.Fasta.Layout.write_record is compared byte for byte with noodles' writer, its output
+   is re-read and re-indexed on the implementation) and c11_fastq_roundtrip. *)
+
+(* ---- non-vacuity ---- *)
+
+(* ">s d\r\nACGT\r\nACGT\r\nAC\r\n>t\nGG\n": CRLF, short last line, a second record *)
+Definition ex_file : list N :=
+  [62;115;32;100;13;10; 65;67;71;84;13;10; 65;67;71;84;13;10; 65;67;13;10; 62;116;10; 71;71;10].
+
+Example c11_example_index :
+  index_file ex_file = ([mkfai [115] 10 6 4 6; mkfai [116] 2 25 2 3], None).
+Proof. vm_compute. reflexivity. Qed.
+
+Example c11_example_query :   (* s:4-9 spans two line boundaries *)
+  index_and_query ex_file [115] (Some 4) (Some 9) = QOk [84;65;67;71;84;65]
+  /\ index_and_query ex_file [115] (Some 9) (Some 100) = QOk [65;67]
+  /\ index_and_query ex_file [116] None None = QOk [71;71].
+Proof. vm_compute. repeat split. Qed.
+
+Example c11_example_ragged :   (* ">a\nACGT\nACG\nACGT\n" *)
+  index_file [62;97;10; 65;67;71;84;10; 65;67;71;10; 65;67;71;84;10] = ([], Some (EInvalidLineBases 3 4)).
+Proof. vm_compute. reflexivity. Qed.
